@@ -14,12 +14,14 @@ Open Scope Z_scope.
    trivial-partition thresholds, the descending scan, the never-Equal min_by,
    the differencing push, the `1 - partition[a]` flip, the two reversed
    pairings, the descending sort of the merged row, the subtraction of its
-   last entry, the back-tracking copy. *)
+   last entry, the back-tracking copy; and src/real.rs: `Ord for coupe::Real` is exactly the order of the
+   inner f64 (partial_cmp, panic on NaN), PartialOrd delegates to it, PartialEq is derived -- no tolerance. *)
 Theorem C12_source_literals :
   (greedy_trivial_below, kk_trivial_parts_below, kk_trivial_len_below, kk_bipart_when, kk_pairs_reversed)
   = (2, 2, 2, 2, 2)%nat
   /\ [greedy_scan_descending; greedy_min_by_partial_cmp; kk2_difference; kk2_flip;
-      kk_sort_descending; kk_subtract_last; kk_copy_part] = [true; true; true; true; true; true; true].
+      kk_sort_descending; kk_subtract_last; kk_copy_part; real_order_exact]
+     = [true; true; true; true; true; true; true; true].
 Proof. split; exact eq_refl. Qed.
 Print Assumptions C12_source_literals.
 
